@@ -346,47 +346,63 @@ fn panics_at(input: &str, entry: usize, loc: &str) -> bool {
     r == 2 && info.split_once('\u{1}').map(|x| x.0).unwrap_or(&info) == loc
 }
 
-/// Delta-debugging (chunk removal down to single chars) followed by a normalisation pass that
-/// maps every char to a class representative (`é` for non-ASCII, `a` for ASCII) whenever the same
-/// panic survives. Deterministic.
+/// Delta-debugging (removal of windows of halving sizes, then of every window of 3, 2, 1 chars)
+/// alternated with a normalisation pass that maps every char to a class representative (`é` for
+/// non-ASCII, `a` for ASCII) whenever the same panic survives, until nothing changes. Deterministic.
 fn minimize(input: &str, test: &dyn Fn(&str) -> bool) -> String {
     let mut cs: Vec<char> = input.chars().collect();
-    let mut budget = 20_000usize;
-    let mut chunk = (cs.len() / 2).max(1);
+    let mut budget = 40_000usize;
     'outer: loop {
         let mut changed = false;
-        let mut i = 0;
-        while i < cs.len() {
-            let j = (i + chunk).min(cs.len());
-            let cand: String = cs[..i].iter().chain(cs[j..].iter()).collect();
-            if budget == 0 {
-                break 'outer;
-            }
-            budget -= 1;
-            if test(&cand) {
-                cs.drain(i..j);
-                changed = true;
-            } else {
-                i = j;
-            }
-        }
-        if chunk == 1 {
-            if !changed {
-                break;
-            }
+        // window sizes n/2, n/4, ... 4 (aligned), then 3, 2, 1 at every offset
+        // (for inputs of <= 16 chars: every window size at every offset)
+        let mut sizes = vec![];
+        let small = cs.len() <= 16;
+        if small {
+            // short inputs: every window of every size
+            sizes.extend((1..cs.len()).rev());
         } else {
-            chunk = (chunk / 2).max(1);
-        }
-    }
-    for i in 0..cs.len() {
-        let c = cs[i];
-        let r = if c.is_ascii() { 'a' } else { 'é' };
-        if c != r {
-            cs[i] = r;
-            let cand: String = cs.iter().collect();
-            if !test(&cand) {
-                cs[i] = c;
+            let mut c = cs.len() / 2;
+            while c > 3 {
+                sizes.push(c);
+                c /= 2;
             }
+            sizes.extend([3, 2, 1]);
+        }
+        for size in sizes {
+            let step = if size <= 3 || small { 1 } else { size };
+            let mut i = 0;
+            while i + size <= cs.len() {
+                let cand: String = cs[..i].iter().chain(cs[i + size..].iter()).collect();
+                if budget == 0 {
+                    break 'outer;
+                }
+                budget -= 1;
+                if test(&cand) {
+                    cs.drain(i..i + size);
+                    changed = true;
+                } else {
+                    i += step;
+                }
+            }
+        }
+        // normalise chars to class representatives; a successful replacement can enable removals
+        for i in 0..cs.len() {
+            let c = cs[i];
+            let r = if c.is_ascii() { 'a' } else { 'é' };
+            if c != r {
+                cs[i] = r;
+                let cand: String = cs.iter().collect();
+                if budget > 0 && test(&cand) {
+                    changed = true;
+                } else {
+                    cs[i] = c;
+                }
+                budget = budget.saturating_sub(1);
+            }
+        }
+        if !changed {
+            break;
         }
     }
     cs.into_iter().collect()
@@ -413,21 +429,27 @@ fn shape_of_core(core: &str) -> String {
 }
 
 thread_local! {
-    static MEMO: std::cell::RefCell<std::collections::HashMap<(usize, String, String), bool>> =
-        std::cell::RefCell::new(std::collections::HashMap::new());
+    /// results of `panics_at` for short candidates of the current (entry, location) pair
+    static MEMO: std::cell::RefCell<(usize, String, std::collections::HashMap<String, bool>)> =
+        std::cell::RefCell::new((0, String::new(), std::collections::HashMap::new()));
 }
 
 fn classify_panic(input: &str, entry: usize, loc: &str) -> (String, String) {
+    MEMO.with(|m| {
+        let mut m = m.borrow_mut();
+        if m.0 != entry || m.1 != loc {
+            *m = (entry, loc.to_string(), std::collections::HashMap::new());
+        }
+    });
     let test = |s: &str| {
-        let key = (entry, loc.to_string(), s.to_string());
-        if let Some(r) = MEMO.with(|m| m.borrow().get(&key).copied()) {
+        if let Some(r) = MEMO.with(|m| m.borrow().2.get(s).copied()) {
             return r;
         }
         let r = panics_at(s, entry, loc);
         MEMO.with(|m| {
             let mut m = m.borrow_mut();
-            if m.len() < 2_000_000 && s.len() <= 64 {
-                m.insert(key, r);
+            if m.2.len() < 300_000 && s.len() <= 48 {
+                m.2.insert(s.to_string(), r);
             }
         });
         r
@@ -856,7 +878,13 @@ fn build_shards(tier: Tier, rep: &mut vhcore::Reporter) -> Vec<(Shard, u64)> {
 
 fn run(a: &vhcore::Args) -> i32 {
     let mut rep = vhcore::Reporter::from_args(a, "exploration");
-    let work = vhcore::work_dir("C16");
+    // scratch files of this run live in work/C16/run (work/C16 itself also holds the proposed
+    // fix patches, so it is not wiped)
+    let work = vhcore::verif_root().join("work").join("C16").join("run");
+    let _ = std::fs::remove_dir_all(&work);
+    if let Err(e) = std::fs::create_dir_all(&work) {
+        vhcore::machinery_failure(&format!("work dir {}: {e}", work.display()));
+    }
     let shards = build_shards(a.tier, &mut rep);
     let expected_total: u64 = shards.iter().map(|s| s.1).sum();
     let mut expected_per_space: BTreeMap<&'static str, u64> = BTreeMap::new();
@@ -1016,7 +1044,11 @@ fn run(a: &vhcore::Args) -> i32 {
             rep.violation(key, what, replay.clone());
         }
     }
-    for (key, what, replay) in fatal.into_inner().unwrap() {
+    let fatal = fatal.into_inner().unwrap();
+    if aborted && fatal.is_empty() {
+        vhcore::machinery_failure("more than 40 stalls / worker deaths, none of them reproducible: the machine is too loaded to decide termination");
+    }
+    for (key, what, replay) in fatal {
         rep.violation(&key, &what, replay);
     }
     rep.set("evaluations", evaluated);
@@ -1045,17 +1077,28 @@ fn run(a: &vhcore::Args) -> i32 {
     if aborted {
         rep.cap(&format!("more than {MAX_EVENTS} hang/crash events: exploration aborted after {evaluated} of {expected_total} inputs"));
     }
-    // samples: two per space
-    let mut per: BTreeMap<String, usize> = BTreeMap::new();
-    for s in &all.samples {
-        let sp = s["space"].as_str().unwrap_or("").to_string();
-        let c = per.entry(sp).or_default();
-        if *c < 2 {
-            *c += 1;
+    // samples: per space the smallest input with diagnostics and the smallest clean one
+    let mut samples = all.samples.clone();
+    samples.retain(|s| !s["input"].as_str().unwrap_or("").is_empty());
+    let skey = |s: &Value| {
+        let i = s["input"].as_str().unwrap_or("").to_string();
+        (
+            s["space"].as_str().unwrap_or("").to_string(),
+            s["diagnostics"].as_array().map(|d| d.is_empty()).unwrap_or(true),
+            i.len(),
+            i,
+            s["case"].to_string(),
+        )
+    };
+    samples.sort_by_key(skey);
+    let mut seen: HashSet<(String, bool)> = HashSet::new();
+    for s in &samples {
+        let k = skey(s);
+        if seen.insert((k.0, k.1)) {
             rep.sample(s.clone());
         }
     }
-    rep.assume("lex/lex_commented are called on the whole text (start = 0, end = len) with source_id = None and default experimental features, as every caller in /repo does; sway-parse never reads the experimental features");
+    rep.assume("lex/lex_commented are called on the whole text (start = 0, end = len), as every caller in /repo does, with source_id = None (swayfmt's way; sway-core passes Some(id), which is only copied into the spans) and default experimental features (sway-parse never reads them)");
     rep.assume("termination is decided with a 5 s wall-clock limit per input (inputs take microseconds)");
     rep.assume("the token bound on corpus files is counted with the harness's own tokenizer (comments, strings, identifiers, glued two-char operators are one token each)");
 
@@ -1071,7 +1114,8 @@ fn run(a: &vhcore::Args) -> i32 {
             }
         }
     }
-    if all.sigs.len() < 2 || all.spans == 0 || all.res[2][0] == 0 || all.res[2][1] == 0 || all.res[0][1] == 0 {
+    let filtered = std::env::var("VH_C16_ONLY").is_ok();
+    if !filtered && (all.sigs.len() < 2 || all.spans == 0 || all.res[2][0] == 0 || all.res[2][1] == 0 || all.res[0][1] == 0) {
         vhcore::machinery_failure(&format!(
             "vacuous run: {} outcome signatures, {} spans checked, parse_file ok={} err={}, lex_commented err={}",
             all.sigs.len(), all.spans, all.res[2][0], all.res[2][1], all.res[0][1]
